@@ -28,9 +28,16 @@ structure SvCtx where
   printedEvals : Nat
   printedLog : Nat
 
+structure EoCtx where
+  heap : Heap F := {}
+  obj : EvObj.Obj F
+  /-- caller-visible arrays (arguments and returned results), in creation order: heap refs -/
+  vis : Array Nat := #[]
+
 structure Ctx where
   sd : SD.State F F := {}
   sv : Option SvCtx := none
+  eo : Option EoCtx := none
 
 def fle (a b : F) : Bool := decide (a ≤ b)
 def flt (a b : F) : Bool := decide (a < b)
@@ -103,97 +110,9 @@ def libm (op : String) (a : List F) : Option F :=
   | "abs", [x] => some (Float.abs x)
   | _, _ => none
 
-def step (c : Ctx) (line : String) : Ctx × String :=
-  let toks := (line.splitOn " ").filter (· ≠ "")
+/-- remaining commands (split only to keep the pattern match of `step` small) -/
+def stepRest (c : Ctx) (toks : List String) : Ctx × String :=
   match toks with
-  | [] => (c, "")
-  | "impl" :: _ => (c, "ok")      -- directives for the implementation side only
-  | "libm" :: op :: args =>
-    match parseFs args with
-    | some a => match libm op a with
-      | some r => (c, hx r)
-      | none => (c, "bad-op")
-    | none => (c, "bad-op")
-  | ["libm.root", x, n] =>
-    match parseF x, n.toNat? with
-    | some x, some n => (c, hx (Fns.root x n))
-    | _, _ => (c, "bad-op")
-  | ["libm.pown", x, n] =>
-    match parseF x, n.toNat? with
-    | some x, some n => (c, hx (Fns.powN x n))
-    | _, _ => (c, "bad-op")
-  -- evolvent ------------------------------------------------------------------------------
-  | ["ev.node", n, d] =>
-    match n.toNat?, d.toNat? with
-    | some n, some d => let (l, u, v) := Ev.node n d; (c, s!"{l} | {ints u} | {ints v}")
-    | _, _ => (c, "bad-op")
-  | "ev.numbr" :: n :: us =>
-    match n.toNat?, us.mapM String.toInt? with
-    | some n, some u => let (iis, l, v) := Ev.numbr n u; (c, s!"{iis} {l} | {ints v}")
-    | _, _ => (c, "bad-op")
-  | "ev.image" :: n :: m :: rest =>
-    match n.toNat?, m.toNat?, parseFs rest with
-    | some n, some m, some fs =>
-      if fs.length == 2 * n + 1 then
-        let lower := fs.take n; let upper := (fs.drop n).take n; let x := fs.getD (2 * n) 0
-        (c, hxs (Ev.getImage n m lower upper x))
-      else (c, "bad-op")
-    | _, _, _ => (c, "bad-op")
-  | "ev.inverse" :: n :: m :: rest =>
-    match n.toNat?, m.toNat?, parseFs rest with
-    | some n, some m, some fs =>
-      if fs.length == 3 * n then
-        let lower := fs.take n; let upper := (fs.drop n).take n; let y := fs.drop (2 * n)
-        (c, hx (Ev.getInverseImage n m lower upper y))
-      else (c, "bad-op")
-    | _, _, _ => (c, "bad-op")
-  | "ev.cubeY" :: n :: ds =>
-    match n.toNat?, ds.mapM String.toNat? with
-    | some n, some ds => (c, ints (Ev.cubeY n ds))
-    | _, _ => (c, "bad-op")
-  -- benchmark problems (tables travel with the command) ---------------------------------------
-  | "pb.hill" :: rest =>
-    match parseFs rest with
-    | some fs => if fs.length == 29 then
-        (c, hx (Prob.hill (fs.take 14) ((fs.drop 14).take 14) (fs.getD 28 0))) else (c, "bad-op")
-    | none => (c, "bad-op")
-  | "pb.shekel" :: rest =>
-    match parseFs rest with
-    | some fs => if fs.length == 31 then
-        (c, hx (Prob.shekel (fs.take 10) ((fs.drop 10).take 10) ((fs.drop 20).take 10) (fs.getD 30 0))) else (c, "bad-op")
-    | none => (c, "bad-op")
-  | "pb.shekel4" :: rows :: rest =>
-    match rows.toNat?, parseFs rest with
-    | some rows, some fs => if fs.length == 5 * rows + 4 then
-        let a := (List.range rows).map fun i => (fs.drop (4 * i)).take 4
-        let cc := (fs.drop (4 * rows)).take rows
-        (c, hx (Prob.shekel4 a cc (fs.drop (5 * rows)))) else (c, "bad-op")
-    | _, _ => (c, "bad-op")
-  | "pb.rastrigin" :: rest =>
-    match parseFs rest with
-    | some fs => (c, hx (Prob.rastrigin fs))
-    | none => (c, "bad-op")
-  | "pb.xsquared" :: rest =>
-    match parseFs rest with
-    | some fs => (c, hx (Prob.xsquared fs))
-    | none => (c, "bad-op")
-  | "pb.grishagin" :: rest =>
-    match parseFs rest with
-    | some fs => if fs.length == 4 * 49 + 2 then
-        let mat := fun (k : Nat) => (List.range 7).map fun i => ((fs.drop (49 * k + 7 * i)).take 7)
-        (c, hx (Prob.grishagin (mat 0) (mat 1) (mat 2) (mat 3) (fs.getD 196 0) (fs.getD 197 0))) else (c, "bad-op")
-    | none => (c, "bad-op")
-  | "pb.gkls" :: dim :: rest =>
-    match dim.toNat?, parseFs rest with
-    | some dim, some fs => if fs.length == 10 * dim + 20 + dim then
-        let lm := (List.range 10).map fun i => (fs.drop (dim * i)).take dim
-        let rho := (fs.drop (10 * dim)).take 10
-        let f := (fs.drop (10 * dim + 10)).take 10
-        let x := fs.drop (10 * dim + 20)
-        let k : Prob.GklsConsts F := { maxValue := 1e100, precision := 1e-10, domainLeft := -1.0, domainRight := 1.0,
-                                       three := 3.0, four := 4.0 }
-        (c, hx (Prob.gkls k { dim := dim, localMin := lm, rho := rho, f := f } x)) else (c, "bad-op")
-    | _, _ => (c, "bad-op")
   -- search data ---------------------------------------------------------------------------
   | ["sd.new", dual, maxlen] =>
     ({ c with sd := { dual := dual == "1", maxlen := maxlen.toNat? } }, "ok")
@@ -308,6 +227,153 @@ def step (c : Ctx) (line : String) : Ctx × String :=
       | none => (c, "fresh")
     | none => (c, "bad-op")
   | _ => (c, "bad-op")
+
+
+def step (c : Ctx) (line : String) : Ctx × String :=
+  let toks := (line.splitOn " ").filter (· ≠ "")
+  match toks with
+  | [] => (c, "")
+  | "impl" :: _ => (c, "ok")      -- directives for the implementation side only
+  | "libm" :: op :: args =>
+    match parseFs args with
+    | some a => match libm op a with
+      | some r => (c, hx r)
+      | none => (c, "bad-op")
+    | none => (c, "bad-op")
+  | ["libm.root", x, n] =>
+    match parseF x, n.toNat? with
+    | some x, some n => (c, hx (Fns.root x n))
+    | _, _ => (c, "bad-op")
+  | ["libm.pown", x, n] =>
+    match parseF x, n.toNat? with
+    | some x, some n => (c, hx (Fns.powN x n))
+    | _, _ => (c, "bad-op")
+  -- evolvent ------------------------------------------------------------------------------
+  | ["ev.node", n, d] =>
+    match n.toNat?, d.toNat? with
+    | some n, some d => let (l, u, v) := Ev.node n d; (c, s!"{l} | {ints u} | {ints v}")
+    | _, _ => (c, "bad-op")
+  | "ev.numbr" :: n :: us =>
+    match n.toNat?, us.mapM String.toInt? with
+    | some n, some u => let (iis, l, v) := Ev.numbr n u; (c, s!"{iis} {l} | {ints v}")
+    | _, _ => (c, "bad-op")
+  | "ev.image" :: n :: m :: rest =>
+    match n.toNat?, m.toNat?, parseFs rest with
+    | some n, some m, some fs =>
+      if fs.length == 2 * n + 1 then
+        let lower := fs.take n; let upper := (fs.drop n).take n; let x := fs.getD (2 * n) 0
+        (c, hxs (Ev.getImage n m lower upper x))
+      else (c, "bad-op")
+    | _, _, _ => (c, "bad-op")
+  | "ev.inverse" :: n :: m :: rest =>
+    match n.toNat?, m.toNat?, parseFs rest with
+    | some n, some m, some fs =>
+      if fs.length == 3 * n then
+        let lower := fs.take n; let upper := (fs.drop n).take n; let y := fs.drop (2 * n)
+        (c, hx (Ev.getInverseImage n m lower upper y))
+      else (c, "bad-op")
+    | _, _, _ => (c, "bad-op")
+  | "ev.cubeY" :: n :: ds =>
+    match n.toNat?, ds.mapM String.toNat? with
+    | some n, some ds => (c, ints (Ev.cubeY n ds))
+    | _, _ => (c, "bad-op")
+  -- benchmark problems (tables travel with the command) ---------------------------------------
+  | "pb.hill" :: rest =>
+    match parseFs rest with
+    | some fs => if fs.length == 29 then
+        (c, hx (Prob.hill (fs.take 14) ((fs.drop 14).take 14) (fs.getD 28 0))) else (c, "bad-op")
+    | none => (c, "bad-op")
+  | "pb.shekel" :: rest =>
+    match parseFs rest with
+    | some fs => if fs.length == 31 then
+        (c, hx (Prob.shekel (fs.take 10) ((fs.drop 10).take 10) ((fs.drop 20).take 10) (fs.getD 30 0))) else (c, "bad-op")
+    | none => (c, "bad-op")
+  | "pb.shekel4" :: rows :: rest =>
+    match rows.toNat?, parseFs rest with
+    | some rows, some fs => if fs.length == 5 * rows + 4 then
+        let a := (List.range rows).map fun i => (fs.drop (4 * i)).take 4
+        let cc := (fs.drop (4 * rows)).take rows
+        (c, hx (Prob.shekel4 a cc (fs.drop (5 * rows)))) else (c, "bad-op")
+    | _, _ => (c, "bad-op")
+  | "pb.rastrigin" :: rest =>
+    match parseFs rest with
+    | some fs => (c, hx (Prob.rastrigin fs))
+    | none => (c, "bad-op")
+  | "pb.xsquared" :: rest =>
+    match parseFs rest with
+    | some fs => (c, hx (Prob.xsquared fs))
+    | none => (c, "bad-op")
+  | "pb.grishagin" :: rest =>
+    match parseFs rest with
+    | some fs => if fs.length == 4 * 49 + 2 then
+        let mat := fun (k : Nat) => (List.range 7).map fun i => ((fs.drop (49 * k + 7 * i)).take 7)
+        (c, hx (Prob.grishagin (mat 0) (mat 1) (mat 2) (mat 3) (fs.getD 196 0) (fs.getD 197 0))) else (c, "bad-op")
+    | none => (c, "bad-op")
+  | "pb.gkls" :: dim :: rest =>
+    match dim.toNat?, parseFs rest with
+    | some dim, some fs => if fs.length == 10 * dim + 20 + dim then
+        let lm := (List.range 10).map fun i => (fs.drop (dim * i)).take dim
+        let rho := (fs.drop (10 * dim)).take 10
+        let f := (fs.drop (10 * dim + 10)).take 10
+        let x := fs.drop (10 * dim + 20)
+        let k : Prob.GklsConsts F := { maxValue := 1e100, precision := 1e-10, domainLeft := -1.0, domainRight := 1.0,
+                                       three := 3.0, four := 4.0 }
+        (c, hx (Prob.gkls k { dim := dim, localMin := lm, rho := rho, f := f } x)) else (c, "bad-op")
+    | _, _ => (c, "bad-op")
+  -- evolvent object with scratch aliasing (C17) ------------------------------------------------
+  | "eo.new" :: n :: m :: rest =>
+    match n.toNat?, m.toNat?, parseFs rest with
+    | some n, some m, some fs =>
+      if fs.length == 2 * n then
+        let h : Heap F := {}
+        let (h, lo) := h.alloc (fs.take n)
+        let (h, hi) := h.alloc (fs.drop n)
+        let (h, o) := EvObj.init h n m lo hi
+        ({ c with eo := some { heap := h, obj := o, vis := #[lo, hi] } }, "ok")
+      else (c, "bad-op")
+    | _, _, _ => (c, "bad-op")
+  | "eo.arr" :: rest =>
+    match c.eo, parseFs rest with
+    | some e, some fs =>
+      let (h, r) := e.heap.alloc fs
+      ({ c with eo := some { e with heap := h, vis := e.vis.push r } }, toString e.vis.size)
+    | _, _ => (c, "bad-op")
+  | "eo.image" :: [x] =>
+    match c.eo, parseF x with
+    | some e, some x =>
+      let r := EvObj.step e.heap e.obj (.image x)
+      match r.out with
+      | .array ref => ({ c with eo := some { e with heap := r.heap, obj := r.obj, vis := e.vis.push ref } },
+                       s!"{e.vis.size}: {hxs (r.heap.read ref)}")
+      | _ => (c, "bad-op")
+    | _, _ => (c, "bad-op")
+  | [op, a] =>
+    if op == "eo.inverse" || op == "eo.preimages" then
+      match c.eo, a.toNat? with
+      | some e, some i =>
+        match e.vis[i]? with
+        | some ref =>
+          let r := EvObj.step e.heap e.obj (if op == "eo.inverse" then .inverse ref else .preimages ref)
+          match r.out with
+          | .number x => ({ c with eo := some { e with heap := r.heap, obj := r.obj } }, hx x)
+          | _ => (c, "bad-op")
+        | none => (c, "bad-op")
+      | _, _ => (c, "bad-op")
+    else stepRest c toks
+  | ["eo.setbounds", a, b] =>
+    match c.eo, a.toNat?, b.toNat? with
+    | some e, some i, some j =>
+      match e.vis[i]?, e.vis[j]? with
+      | some ri, some rj =>
+        let r := EvObj.step e.heap e.obj (.setBounds ri rj)
+        ({ c with eo := some { e with heap := r.heap, obj := r.obj } }, "ok")
+      | _, _ => (c, "bad-op")
+    | _, _, _ => (c, "bad-op")
+  | ["eo.visible"] =>
+    match c.eo with
+    | some e => (c, " | ".intercalate (e.vis.toList.map fun r => hxs (e.heap.read r)))
+    | none => (c, "bad-op")
+  | _ => stepRest c toks
 
 partial def loop (h : IO.FS.Stream) (out : IO.FS.Stream) (c : Ctx) : IO Unit := do
   let line ← h.getLine
